@@ -138,7 +138,10 @@ class Run(object):
             self.violation('unlisted:' + slug, case, 'finding %s is not listed for %s: %s' % (slug, self.prop, what))
             return True
         t = self.known_tally.setdefault(slug, [0, 0, None])
-        t[1] += 1
+        key = (slug, id(case))
+        if case is None or key != getattr(self, '_last_known', None):
+            t[1] += 1                   # once per case
+        self._last_known = key
         if t[2] is None:
             t[2] = what
         return True
